@@ -866,8 +866,12 @@ def _kiss_tolerances(case, s, fps, A, rhs, kappa, inside=None):
         if gap < 1e-6 or kappa > 1e4:
             raise Discard("lanczos path: repeated eigenvalue (relative gap < 1e-6) or kappa > 1e4")
         _calibrate_cg(A, rhs, s)
-        if fps and inside is not None:
-            _calibrate_lanczos_root(inside, s)
+        if fps:
+            # fast_pred_samples above max_cholesky_size takes a single-start-vector Lanczos root of the numerically singular m x m
+            # matrix K_UU - K_UU W^T (K~+S)^-1 W K_UU.  That is not an exact algorithm on such a matrix: how well the root reproduces
+            # it depends on the random start vector of the very call (a calibration call with another vector says nothing about it;
+            # thorough tier, unchanged tree: 8e-3 on one case in 1e5).  Outside "full rank where they are exact algorithms": counted.
+            raise Discard("fast_pred_samples above max_cholesky_size: Lanczos root of a numerically singular matrix (not an exact algorithm)")
         return 2e-3, 2e-3
     if s["max_chol"] == 0:
         if kappa > 1e5:
